@@ -20,7 +20,8 @@ RULE = ('E2 histories with master restarts; at every restart, right after '
         'on >=2 servers with >=1 identity or lease among them. distinct = '
         'canonical JSON.'
         ' Since rounds 6-7: allocation changes and partition reboot-schedule changes (read by masters only at start) before the restart; leased instances on old servers.'
-        " Since round 8: rack definitions deleted under their servers; such servers are not 'still offering' (the topology a new master builds does not contain them).")
+        " Since round 8: rack definitions deleted under their servers; such servers are not 'still offering' (the topology a new master builds does not contain them)."
+        ' Since round 9: restarts after unschedule-only changes are judged as well (records of the unscheduled instances skipped); rmrestart macro (instances stopped while no master looks).')
 ASSUMPTIONS = [
     'fake ZooKeeper stands in for the ensemble; ctime ordering follows the '
     'virtual clock, which the harness advances before every external write',
